@@ -4,6 +4,7 @@ Pure (stateless) requests of the line protocol. Not part of any proof.
 import Verif.Driver.Codec
 import Verif.Spec.Rfc4511
 import Verif.Model.FilterText
+import Verif.Generated.Regexes
 
 open Lean
 
@@ -59,6 +60,22 @@ def pureOp (op : String) (j : Json) : Except String Json := do
     | .error .recursion => return Json.mkObj [("err", "recursion")]
     | .error .fuel => return Json.mkObj [("err", "fuel")]
   | "attr_valid" => return Json.mkObj [("ok", Json.bool (validAttr (← getBytes j "hex")))]
+  | "rematch" =>
+    let name ← getStr j "name"
+    let cps ← (← getArr j "cps").mapM (fun x => x.getNat?)
+    match Regexes.allPatterns.find? (·.1 == name) with
+    | none => return Json.mkObj [("err", "unknown-pattern")]
+    | some (_, r) =>
+      match Re.matchLen r cps with
+      | some n => return Json.mkObj [("end", n)]
+      | none => return Json.mkObj [("end", Json.null)]
+  | "rework" =>
+    let name ← getStr j "name"
+    let cps ← (← getArr j "cps").mapM (fun x => x.getNat?)
+    match Regexes.allPatterns.find? (·.1 == name) with
+    | none => return Json.mkObj [("err", "unknown-pattern")]
+    | some (_, r) => return Json.mkObj [("work", Re.work r cps)]
+  | "repatterns" => return Json.mkObj [("names", Json.arr (Regexes.allPatterns.map (fun p => Json.str p.1)).toArray)]
   | _ => throw s!"unknown op {op}"
 
 end Verif.Driver
